@@ -2,38 +2,40 @@
 
 pub mod c01;
 pub mod c02;
+pub mod c04;
 pub mod c06;
+pub mod c07;
+pub mod c08;
 pub mod c11;
+pub mod c12;
 
 use crate::PropDef;
 
+fn def(
+    id: &'static str,
+    tag: u64,
+    case: fn(&mut crate::report::Run, &mut crate::prng::Rng),
+    extra: Option<fn(&mut crate::report::Run)>,
+    panic_is_violation: bool,
+) -> PropDef {
+    PropDef {
+        id,
+        tag,
+        case,
+        extra,
+        panic_is_violation,
+    }
+}
+
 pub fn registry() -> Vec<PropDef> {
-    vec![PropDef {
-        id: "C01",
-        tag: 1,
-        case: c01::case,
-        extra: Some(c01::sweep),
-        panic_is_violation: true,
-    },
-    PropDef {
-        id: "C02",
-        tag: 2,
-        case: c02::case,
-        extra: None,
-        panic_is_violation: true,
-    },
-    PropDef {
-        id: "C06",
-        tag: 6,
-        case: c06::case,
-        extra: Some(c06::golden),
-        panic_is_violation: true,
-    },
-    PropDef {
-        id: "C11",
-        tag: 11,
-        case: c11::case,
-        extra: None,
-        panic_is_violation: true,
-    }]
+    vec![
+        def("C01", 1, c01::case, Some(c01::sweep), true),
+        def("C02", 2, c02::case, None, true),
+        def("C04", 4, c04::case, None, true),
+        def("C06", 6, c06::case, Some(c06::golden), true),
+        def("C07", 7, c07::case, None, true),
+        def("C08", 8, c08::case, None, true),
+        def("C11", 11, c11::case, None, true),
+        def("C12", 12, c12::case, Some(c12::advertised), true),
+    ]
 }
